@@ -22,11 +22,30 @@ structure Mid (env : Env) (lt : Node → Node → Prop) (s : St) : Prop where
 /-- the level of the frame that receives the reads an uncached callee hands over -/
 def retLvl (s : St) : Option Nat := if s.stack = [] then none else some (s.stack.length - 1)
 
+/-- the edges into the nearest cached caller `T` that a step added are justified by `evs` -/
+def NewIn (s s' : St) (T : Option Node) (evs : List FEv) : Prop :=
+  ∀ a t, T = some t → (a, GNode.elem t) ∈ s'.ge → (a, GNode.elem t) ∈ s.ge ∨ JustE evs a
+
+theorem NewIn.mono {s s' : St} {T : Option Node} {evs evs' : List FEv} (h : NewIn s s' T evs)
+    (hsub : ∀ ev ∈ evs, ev ∈ evs') : NewIn s s' T evs' :=
+  fun a t hT he => (h a t hT he).imp id (JustE.mono hsub)
+
+theorem NewIn.trans {a b c : St} {T : Option Node} {e1 e2 : List FEv} (h1 : NewIn a b T e1)
+    (h2 : NewIn b c T e2) : NewIn a c T (e1 ++ e2) := by
+  intro x t hT he
+  rcases h2 x t hT he with h | h
+  · exact (h1 x t hT h).imp id (JustE.mono (fun ev hm => List.mem_append_left _ hm))
+  · exact Or.inr (JustE.mono (fun ev hm => List.mem_append_right _ hm) h)
+
+theorem NewIn.of_ge {s s' : St} (T : Option Node) (evs : List FEv) (h : s'.ge = s.ge) : NewIn s s' T evs :=
+  fun _ _ _ he => Or.inl (h ▸ he)
+
 /-- what a callee that returned `w` leaves for the trace of its caller -/
-def Ret (env : Env) (s' : St) (T : Option Node) (lvl : Option Nat) (m : Node) (w : Val) : Prop :=
-  (env.cached m.1 = true ∧ PendEv env s' T lvl (.call m w)) ∨
+def Ret (env : Env) (s s' : St) (T : Option Node) (lvl : Option Nat) (m : Node) (w : Val) : Prop :=
+  (env.cached m.1 = true ∧ PendEv env s' T lvl (.call m w) ∧ NewIn s s' T [.call m w]) ∨
   (env.cached m.1 = false ∧ ∃ sub, Replay env sub (env.formula m) w ∧
-    (∀ ev ∈ flat m.1 sub, PendEv env s' T lvl ev) ∧ PendEv env s' T lvl (.ucall m))
+    (∀ ev ∈ flat m.1 sub, PendEv env s' T lvl ev) ∧ PendEv env s' T lvl (.ucall m) ∧
+    NewIn s s' T (.ucall m :: flat m.1 sub))
 
 structure Post (env : Env) (lt : Node → Node → Prop) (s s' : St) : Prop where
   mid : Mid env lt s'
@@ -35,16 +54,26 @@ structure Post (env : Env) (lt : Node → Node → Prop) (s s' : St) : Prop wher
   presP : PresP s s'
   inputs : s'.inputs = s.inputs
   body : BodyRel s s'
+  /-- among the executing elements, only the nearest cached caller gets new edges -/
+  stackIn : ∀ a t, t ∈ s.stack → (a, GNode.elem t) ∈ s'.ge → (a, GNode.elem t) ∈ s.ge ∨ s.edgeTarget = some t
+
+theorem edgeTarget_congr' {s s' : St} (h1 : s'.stack = s.stack) (h2 : s'.idx = s.idx) :
+    s'.edgeTarget = s.edgeTarget := by
+  unfold St.edgeTarget; rw [h1, h2]
 
 theorem Post.trans {a b c : St} (h1 : Post env lt a b) (h2 : Post env lt b c) : Post env lt a c :=
   ⟨h2.mid, h2.idx.trans h1.idx, h1.presH.trans h2.presH, h1.presP.trans h2.presP,
-   h2.inputs.trans h1.inputs, h1.body.trans h2.body⟩
+   h2.inputs.trans h1.inputs, h1.body.trans h2.body, fun x t ht he => by
+     rcases h2.stackIn x t (by rw [h1.presP.stack]; exact ht) he with h | h
+     · exact h1.stackIn x t ht h
+     · exact Or.inr (by rw [← edgeTarget_congr' h1.presP.stack h1.idx]; exact h)⟩
 
 /-- a step that touches neither cache nor graphs nor the frames -/
 theorem Post.of_same {s s' : St} (hm : Mid env lt s) (hg : SameG s s') (hc : SameC s s')
     (hb : BodyRel s s') : Post env lt s s' := by
   refine ⟨⟨GI.of_sameG hg hm.gi, by rw [hg.stack, hg.idx]; exact hm.idxok, by rw [hg.stack, hg.idx]; exact hm.len,
-    hb.refsBelow hm.refsBelow, hm.certs.of_sameC hc⟩, hg.idx, PresH.of_sameC hc, ?_, hc.inputs, hb⟩
+    hb.refsBelow hm.refsBelow, hm.certs.of_sameC hc⟩, hg.idx, PresH.of_sameC hc, ?_, hc.inputs, hb,
+    fun _ _ _ he => Or.inl (hc.ge ▸ he)⟩
   refine ⟨Ext.of_data hc.data, hg.stack, fun a t _ h _ => by rw [hc.ge]; exact h, ?_⟩
   obtain ⟨new, hnew, _⟩ := hb.refs
   intro e he; rw [hnew]; exact List.mem_append_left _ he
@@ -52,12 +81,12 @@ theorem Post.of_same {s s' : St} (hm : Mid env lt s) (hg : SameG s s') (hc : Sam
 def CalleeC (env : Env) (lt : Node → Node → Prop) (f : Node → St → Res × St) : Prop :=
   ∀ m s, Mid env lt s → (∀ a ∈ s.stack, lt m a) →
     Post env lt s (f m s).2 ∧
-    ∀ w, (f m s).1 = .ok w → Ret env (f m s).2 s.edgeTarget (retLvl s) m w
+    ∀ w, (f m s).1 = .ok w → Ret env s (f m s).2 s.edgeTarget (retLvl s) m w
 
 def EvalC (env : Env) (lt : Node → Node → Prop) (f : Node → St → Res × St) : Prop :=
   ∀ m s, Mid env lt s → (∀ a ∈ s.stack, lt m a) → lookup s.data m = none →
     Post env lt s (f m s).2 ∧
-    ∀ w, (f m s).1 = .ok w → Ret env (f m s).2 s.edgeTarget (retLvl s) m w
+    ∀ w, (f m s).1 = .ok w → Ret env s (f m s).2 s.edgeTarget (retLvl s) m w
 
 theorem sameC_noteRead (s : St) (a : Bool) (r : RefId) : SameC s (s.noteRead a r) := by
   unfold St.noteRead; split <;> exact ⟨rfl, rfl, rfl, rfl⟩
@@ -69,17 +98,23 @@ theorem sameC_addEdge_data (s : St) (a b : GNode) :
   all_goals exact ⟨rfl, rfl, rfl, rfl, rfl, rfl⟩
 
 /-- adding an edge is a step that keeps everything certificates and pending events need -/
-theorem addEdge_pres (s : St) (a b : GNode) :
-    PresH s (s.addEdge a b) ∧ PresP s (s.addEdge a b) := by
-  obtain ⟨hd, _, hr, hst, _, hrs⟩ := sameC_addEdge_data s a b
-  have hge : ∀ e ∈ s.ge, e ∈ (s.addEdge a b).ge := fun e he => (mem_addEdge_ge s a b e).mpr (Or.inl he)
-  exact ⟨⟨Ext.of_data hd, fun _ _ _ _ h => by rw [hd]; exact h, fun _ _ h _ _ => hge _ h,
-      fun e he => by rw [hr]; exact he⟩,
+theorem addEdge_pres (s : St) (a : GNode) (t : Node) (ht : ¬ Held s t) :
+    PresH s (s.addEdge a (.elem t)) ∧ PresP s (s.addEdge a (.elem t)) := by
+  obtain ⟨hd, _, hr, hst, _, hrs⟩ := sameC_addEdge_data s a (.elem t)
+  have hge : ∀ e ∈ s.ge, e ∈ (s.addEdge a (.elem t)).ge :=
+    fun e he => (mem_addEdge_ge s a (.elem t) e).mpr (Or.inl he)
+  refine ⟨⟨Ext.of_data hd, fun _ _ _ _ h => by rw [hd]; exact h, fun _ _ h _ _ => hge _ h,
+      fun e he => by rw [hr]; exact he, ?_⟩,
     ⟨Ext.of_data hd, hst, fun _ _ _ h _ => hge _ h, fun e he => by rw [hrs]; exact he⟩⟩
+  intro x n hn he
+  rcases (mem_addEdge_ge s a (.elem t) _).mp he with h | h
+  · exact h
+  · cases h; exact absurd hn ht
 
-theorem certs_addEdge (s : St) (a b : GNode) (hc : CInv env s) : CInv env (s.addEdge a b) :=
-  hc.presH (addEdge_pres s a b).1 (sameC_addEdge_data s a b).2.1
-    (fun n v hl hn _ => by rw [(sameC_addEdge_data s a b).1] at hl; rw [hn] at hl; cases hl)
+theorem certs_addEdge (s : St) (a : GNode) (t : Node) (ht : ¬ Held s t) (hc : CInv env s) :
+    CInv env (s.addEdge a (.elem t)) :=
+  hc.presH (addEdge_pres s a t ht).1 (sameC_addEdge_data s a (.elem t)).2.1
+    (fun n v hl hn _ => by rw [(sameC_addEdge_data s a (.elem t)).1] at hl; rw [hn] at hl; cases hl)
 
 theorem retLvl_of_stack {s : St} {base : List Node} {n : Node} (h : s.stack = base ++ [n]) :
     retLvl s = some base.length := by
@@ -98,17 +133,19 @@ theorem PendEv.of_same {s s' : St} {T : Option Node} {lvl : Option Nat} (hd : s'
 /-- keeping the caller's exception identity when a call returns changes nothing the certificates
 speak about -/
 theorem keepExc_cert (s0 s : St) (p : Res × St) (m : Node) (T : Option Node) (lvl : Option Nat)
-    (h : Post env lt s p.2 ∧ ∀ w, p.1 = .ok w → Ret env p.2 T lvl m w) :
-    Post env lt s (keepExc s0 p).2 ∧ ∀ w, (keepExc s0 p).1 = .ok w → Ret env (keepExc s0 p).2 T lvl m w := by
+    (h : Post env lt s p.2 ∧ ∀ w, p.1 = .ok w → Ret env s p.2 T lvl m w) :
+    Post env lt s (keepExc s0 p).2 ∧ ∀ w, (keepExc s0 p).1 = .ok w → Ret env s (keepExc s0 p).2 T lvl m w := by
   have ho := keepExc_excOnly s0 p
   refine ⟨h.1.trans (Post.of_same h.1.mid (keepExc_sameG s0 p) ⟨ho.data, ho.inputs, ho.ge, ho.rg⟩
     (BodyRel.of_frameSame (frameSame_keepExc s0 p))), ?_⟩
   intro w hw
   rw [keepExc_fst] at hw
-  rcases h.2 w hw with ⟨hc, hp⟩ | ⟨hc, sub, hrep, hev, hu⟩
-  · exact Or.inl ⟨hc, hp.of_same ho.data ho.ge ho.refstack⟩
+  have hni : ∀ evs, NewIn s p.2 T evs → NewIn s (keepExc s0 p).2 T evs :=
+    fun evs hn a t hT he => hn a t hT (ho.ge ▸ he)
+  rcases h.2 w hw with ⟨hc, hp, hn⟩ | ⟨hc, sub, hrep, hev, hu, hn⟩
+  · exact Or.inl ⟨hc, hp.of_same ho.data ho.ge ho.refstack, hni _ hn⟩
   · exact Or.inr ⟨hc, sub, hrep, fun ev hm => (hev ev hm).of_same ho.data ho.ge ho.refstack,
-      hu.of_same ho.data ho.ge ho.refstack⟩
+      hu.of_same ho.data ho.ge ho.refstack, hni _ hn⟩
 
 theorem evalNode_cert (ef : Node → St → Res × St) (hefG : EvalG env lt ef) (hef : EvalC env lt ef) :
     CalleeC env lt (evalNode env ef) := by
@@ -134,22 +171,42 @@ theorem evalNode_cert (ef : Node → St → Res × St) (hefG : EvalG env lt ef) 
       have hfs := frameSame_hitEdge s m
       have hdata : (s.hitEdge m).data = s.data := (sameCache_hitEdge s m).data
       have hinp : (s.hitEdge m).inputs = s.inputs := (sameCache_hitEdge s m).inputs
+      have hunheld : ∀ t, s.edgeTarget = some t → ¬ Held s t := by
+        intro t ht hh
+        unfold Held at hh
+        rw [hm.gi.stackUnheld t (edgeTarget_mem s t ht)] at hh; cases hh
       have hpres : PresH s (s.hitEdge m) ∧ PresP s (s.hitEdge m) ∧ CInv env (s.hitEdge m) := by
         unfold St.hitEdge
-        split
-        · exact ⟨(addEdge_pres s _ _).1, (addEdge_pres s _ _).2, certs_addEdge s _ _ hm.certs⟩
-        · exact ⟨PresH.refl s, PresP.refl s, hm.certs⟩
+        cases ht : s.edgeTarget with
+        | some t =>
+          exact ⟨(addEdge_pres s _ t (hunheld t ht)).1, (addEdge_pres s _ t (hunheld t ht)).2,
+            certs_addEdge s _ t (hunheld t ht) hm.certs⟩
+        | none => exact ⟨PresH.refl s, PresP.refl s, hm.certs⟩
+      have hgeq : ∀ e, e ∈ (s.hitEdge m).ge → e ∈ s.ge ∨ ∃ t, s.edgeTarget = some t ∧ e = (.elem m, .elem t) := by
+        intro e he
+        unfold St.hitEdge at he
+        cases ht : s.edgeTarget with
+        | some t => rw [ht] at he; exact ((mem_addEdge_ge s _ _ e).mp he).imp id (fun h => ⟨t, rfl, h⟩)
+        | none => rw [ht] at he; exact Or.inl he
       refine ⟨⟨⟨g', by rw [hst', hidx']; exact hm.idxok, by rw [hst', hidx']; exact hm.len,
           (BodyRel.of_frameSame hfs).refsBelow hm.refsBelow, hpres.2.2⟩, hidx', hpres.1, hpres.2.1, hinp,
-          BodyRel.of_frameSame hfs⟩, ?_⟩
+          BodyRel.of_frameSame hfs, ?_⟩, ?_⟩
+      · intro a t _ he
+        rcases hgeq _ he with h | ⟨t', ht', h⟩
+        · exact Or.inl h
+        · cases h; exact Or.inr ht'
       intro w hw
       cases hw
       left
-      refine ⟨hc, by rw [hdata]; exact hl, ?_⟩
-      intro t ht
-      unfold St.hitEdge
-      rw [ht]
-      exact (mem_addEdge_ge s _ _ _).mpr (Or.inr rfl)
+      refine ⟨hc, ⟨by rw [hdata]; exact hl, ?_⟩, ?_⟩
+      · intro t ht
+        unfold St.hitEdge
+        rw [ht]
+        exact (mem_addEdge_ge s _ _ _).mpr (Or.inr rfl)
+      · intro a t _ he
+        rcases hgeq _ he with h | ⟨t', _, h⟩
+        · exact Or.inl h
+        · cases h; exact Or.inr (Or.inl ⟨m, v, rfl, by simp⟩)
   · have hc' : env.cached m.1 = false := by simpa using hc
     simp only [hc', Bool.false_eq_true, if_false]
     refine keepExc_cert s s _ m _ _ (hef m s hm hbelow ?_)
@@ -164,7 +221,8 @@ theorem runBody_cert (ho : StrictOrder lt) (f : Node → St → Res × St) (hfC 
     ∀ (p : Prog), NoCatch p → CallsBelow lt n p → ∀ (s : St), Mid env lt s → s.stack = base ++ [n] →
       Post env lt s (runBody env f p s).2 ∧
       ∀ v, (runBody env f p s).1 = .ok v → ∃ tr, Replay env tr p v ∧
-        ∀ ev ∈ flat n.1 tr, PendEv env (runBody env f p s).2 s.edgeTarget (some base.length) ev := by
+        (∀ ev ∈ flat n.1 tr, PendEv env (runBody env f p s).2 s.edgeTarget (some base.length) ev) ∧
+        NewIn s (runBody env f p s).2 s.edgeTarget (flat n.1 tr) := by
   intro p
   induction p with
   | ret v0 =>
@@ -173,7 +231,7 @@ theorem runBody_cert (ho : StrictOrder lt) (f : Node → St → Res × St) (hfC 
     intro v hv
     simp only [runBody, Res.ok.injEq] at hv
     subst hv
-    exact ⟨.nil, rfl, by simp [flat]⟩
+    exact ⟨.nil, rfl, by simp [flat], NewIn.of_ge _ _ rfl⟩
   | raise e =>
     intro _ _ s hm _
     simp only [runBody]
@@ -197,8 +255,14 @@ theorem runBody_cert (ho : StrictOrder lt) (f : Node → St → Res × St) (hfC 
     obtain ⟨h1, h2⟩ := ih (env.refs r) (hnc.2 _) (hcb _) (s.noteRead b r) h0.mid (hsg.stack.trans hs)
     refine ⟨h0.trans h1, ?_⟩
     intro v hv
-    obtain ⟨tr, hrep, hpend⟩ := h2 v hv
-    refine ⟨.read a r (env.refs r) tr, ⟨rfl, rfl, hrep⟩, ?_⟩
+    obtain ⟨tr, hrep, hpend, hnew⟩ := h2 v hv
+    refine ⟨.read a r (env.refs r) tr, ⟨rfl, rfl, hrep⟩, ?_, ?_⟩
+    rotate_left
+    · rw [edgeTarget_congr hsg.stack hsg.idx] at hnew
+      intro x t hT he
+      rcases hnew x t hT he with h | h
+      · exact Or.inl (hsc.ge ▸ h)
+      · exact Or.inr (JustE.mono (fun ev hm => by simp [flat, hm]) h)
     intro ev hm'
     simp only [flat, List.mem_cons] at hm'
     rcases hm' with rfl | hm'
@@ -237,7 +301,8 @@ theorem runBody_cert (ho : StrictOrder lt) (f : Node → St → Res × St) (hfC 
       exact absurd hv (fails_not_ok env f _ (hnc.1 e) _ v)
     | ok w =>
       rw [hres] at hv h2 h1
-      obtain ⟨tr, hrep, hpend⟩ := h2 v hv
+      obtain ⟨tr, hrep, hpend, hnew⟩ := h2 v hv
+      rw [edgeTarget_congr hst0 h0.idx] at hnew
       have hT : ∀ t, s.edgeTarget = some t → t ∈ (f m s).2.stack := by
         intro t ht; rw [hst0]; exact edgeTarget_mem s t ht
       have hpend' : ∀ ev ∈ flat n.1 tr,
@@ -246,14 +311,18 @@ theorem runBody_cert (ho : StrictOrder lt) (f : Node → St → Res × St) (hfC 
         have := hpend ev hm'
         rwa [edgeTarget_congr hst0 h0.idx] at this
       have hlvl : retLvl s = some base.length := retLvl_of_stack hs
-      rcases hret w hres with ⟨hc, hp⟩ | ⟨hc, sub, hsub, hpsub, hpu⟩
-      · refine ⟨.call m w tr, ⟨rfl, hc, hrep⟩, ?_⟩
+      rcases hret w hres with ⟨hc, hp, hn0⟩ | ⟨hc, sub, hsub, hpsub, hpu, hn0⟩
+      · refine ⟨.call m w tr, ⟨rfl, hc, hrep⟩, ?_, ?_⟩
+        rotate_left
+        · exact (hn0.trans hnew).mono (fun ev hm => by simpa [flat] using hm)
         intro ev hm'
         simp only [flat, List.mem_cons] at hm'
         rcases hm' with rfl | hm'
         · rw [hlvl] at hp; exact hp.pres h1.presP hT
         · exact hpend' ev hm'
-      · refine ⟨.ucall m w sub tr, ⟨rfl, hc, hsub, hrep⟩, ?_⟩
+      · refine ⟨.ucall m w sub tr, ⟨rfl, hc, hsub, hrep⟩, ?_, ?_⟩
+        rotate_left
+        · exact (hn0.trans hnew).mono (fun ev hm => by simpa [flat, List.append_assoc] using hm)
         intro ev hm'
         simp only [flat, List.mem_cons, List.mem_append] at hm'
         rcases hm' with rfl | hm' | hm'
